@@ -130,6 +130,7 @@ func genSumCase(t *rapid.T) Case {
 	e.Off = rapid.IntRange(0, len(sum)-1).Draw(t, "soff")
 	e.File = rapid.IntRange(0, nl).Draw(t, "sline")
 	e.Peer = rapid.IntRange(0, nl).Draw(t, "speer")
+	e.Rehash = (e.Kind == "sum-del-line" || e.Kind == "sum-dup-line" || e.Kind == "sum-swap-lines") && rapid.Bool().Draw(t, "rehash")
 	c.Edits = []Edit{e}
 	return c
 }
@@ -185,6 +186,9 @@ func exhaustive(files []File, local bool, f func(Case) bool) {
 		}
 	}
 	for l := 1; l <= nl; l++ {
+		if !f(Case{Files: files, Local: local, Edits: []Edit{{Kind: "sum-del-line", File: l, Rehash: true}}}) || !f(Case{Files: files, Local: local, Edits: []Edit{{Kind: "sum-dup-line", File: l, Rehash: true}}}) {
+			return
+		}
 		if !f(Case{Files: files, Local: local, Edits: []Edit{{Kind: "sum-del-line", File: l}}}) || !f(Case{Files: files, Local: local, Edits: []Edit{{Kind: "sum-dup-line", File: l}}}) {
 			return
 		}
